@@ -63,6 +63,58 @@ claim("C13",
       TB + "Borders are stored keys or well-formed internal keys (the property's own quantifier).",
       "Lean 4 proof (list induction; border adjustment monotone in (key,rev) order) + differential correspondence", "DESIGN.md §5 C13")
 
+claim("C01",
+      "Lean theorems KB.Props.C01 over the interleaving LTS KB.Sys (all schedules, any number of clients, arbitrary expected revisions, storage "
+      "faults, retry rewrites, every Quirks, every well-formed initial store): the applied writes of each key form one chain in which every update/"
+      "guarded delete named exactly its predecessor's revision and every create found the key absent or deleted (`chain`); two writers conditioned on "
+      "the same revision never both succeed; a step that applies nothing leaves the store unchanged; the index record always equals the last applied "
+      "write; a CAS conflict means the index really differed at that step. Correspondence: gated schedules on three engines incl. ALL interleavings of "
+      "two clients for 21 request-shape pairs; chain oracle on the implementation's responses.",
+      TB + "Each engine serialises overlapping transactions on one index key (memkv mutex, badger SSI, tikv optimistic conflicts): the gated harness applies "
+      "batches atomically at their release point. `cond_failed_justified` is proved in its local form (the failing commit step is the moment).",
+      "Lean 4 proof (inductive store/log invariant over all schedules) + scheduled differential correspondence", "DESIGN.md §5 C01")
+claim("C02",
+      "Lean theorems KB.Props.C02 / C02Store over KB.Sys: dealt revisions are unique; a request that returned before another began has the smaller "
+      "revision (ghost stamps of the monotone counter); per key the applied revisions strictly increase; header >= data for write failure responses, "
+      "Get and List (after fix 2e45001). Correspondence: gated schedules + sequential histories with reads above the committed revision.",
+      TB + "Real time is observed at script granularity in the correspondence runs.",
+      "Lean 4 proof (inductive invariants over all schedules) + scheduled differential correspondence", "DESIGN.md §5 C02")
+claim("C06",
+      "Lean theorems KB.Props.C06: the pure specification lemma (events (R,R'] applied to the snapshot at R give the snapshot at R', also per key "
+      "range) for every revision-sorted history; and for every sequence of requests on the backend model the store read at R equals the snapshot "
+      "of the acknowledged writes and the events handed to watchers are exactly those writes in order. Correspondence: List at R, Watch from R+1, "
+      "writes/failed writes/compactions, drain, List again - reconstruction oracle on the implementation's outputs, three engines.",
+      TB + "Sequential writers around the reader (interleavings are C04/C05's theorems).",
+      "Lean 4 proof (history refinement of the sequential model) + differential correspondence", "DESIGN.md §5 C06")
+claim("C07",
+      "Lean theorems KB.Props.C07 over the compaction pass of the worker loop and the execution of its delete calls under an ARBITRARY failure mask "
+      "(any individual failure, any crash point): reads at every revision >= R of every key are unchanged; only records <= R that are superseded / "
+      "tombstones / deleted indexes are removed; live keys keep index and newest version. Correspondence: histories x masks x crash points on three engines, "
+      "reads before/after, writes after, skipped prefixes untouched.",
+      TB + "Unconditional Del never fails with a condition error (engine contract; witness of the negation proved); non-empty raw keys (witness for the empty key proved); "
+      "expiry of event keys excluded (C17).",
+      "Lean 4 proof (loop invariant: a tombstone goes only after all older versions went) + fault-mask differential correspondence", "DESIGN.md §5 C07")
+claim("C08",
+      "Lean theorems KB.Props.C08: for every store, request revision, failure mask and engine, doCompact never lowers the floor (exactly max(old, clamped "
+      "revision)), the floor is >= every accepted revision, writes never touch the record, and List/Count/stream below the floor are refused. "
+      "Correspondence: compaction sequences (increasing, repeated, older, 0, above current) interleaved with writes and reads on three engines; floor record read back.",
+      TB + "A single compactor (the leader's periodic job).",
+      "Lean 4 proof (direct, over the compaction model) + differential correspondence", "DESIGN.md §5 C08")
+claim("C14",
+      "Lean theorems KB.Props.C14 over the lock model (Get/Create/Update of election.go on the shared reference engine): for all schedules of any number "
+      "of candidates: update succeeds only if the stored record equals the candidate's last observed bytes; once present the record is never absent and at most "
+      "one create succeeds; two candidates with the same observation never both acquire (fresh records); every change of the record is such a step. "
+      "Correspondence: exhaustive enumeration of all step sequences (2 candidates length 6, 3 candidates length 5 on memkv; shorter on badger/tikv) + random + goroutine races.",
+      TB + "client-go's elector itself is not modelled (only its resourcelock.Interface calls); records are compared as bytes (ABA needs byte-identical records).",
+      "Lean 4 proof (all schedules of the lock LTS) + exhaustive differential enumeration", "docs/DESIGN-C14.md")
+claim("C17",
+      "Lean theorems KB.Props.C17: whatever the scanner's expiry removes lies under <prefix>/events/ (the test is DEFINED through facts regenerated from "
+      "txn.go / scanner.go / util.go, so a substring match breaks the proof); the TTL is passed on create exactly for those keys; the timeout revision is a "
+      "mark at least TTL old; a record expires only at or below it; an expired key loses index and all versions in one pass and produces no read result. "
+      "Correspondence: tikv mock with TTL 1 s, event keys and lookalikes, young/old marks, re-creation, silent expiry.",
+      TB + "Model time advances only by the script's sleeps; native-TTL engines' clocks are assumed.",
+      "Lean 4 proof + regenerated source facts + differential correspondence with a model clock", "DESIGN.md §5 C17")
+
 ALL = ["C%02d" % i for i in range(1, 21)]
 
 
